@@ -3,7 +3,7 @@
 cd "$(dirname "$0")"
 export GOFLAGS=-mod=mod GOPROXY=off GOSUMDB=off GOTOOLCHAIN=local
 mkdir -p .bin evidence/parts evidence/replay
-for d in props/*/; do
+for d in props/c[0-9][0-9]/; do
   id=$(basename $d)
   go test -c -tags verif -vet=off -o .bin/$id.test ./props/$id || exit 1
 done
